@@ -55,6 +55,91 @@ def gen_runs(prop, tier, seed):
     return runs
 
 
+def c15_matrix_runs(tier, seed):
+    """Every option, one at a time, set at several levels at once (run time by
+    CLI flag / DIVAN_* variable / builder call, the benchmark, the inner and the
+    outer group) with values that include the falsy ones (false, 0, [1])."""
+    rnd = random.Random(seed + 1515)
+    values = {
+        "sample_count": [1, 2, 3], "sample_size": [1, 2, 3], "threads": [[1], [2], [1, 2]],
+        "min_time_ns": [0, 1, 2], "max_time_ns": [50, 100, 1000], "skip_ext_time": [False, True],
+        "c0": [7, 8], "c1": [7, 8], "c2": [7, 8], "c3": [7, 8],
+    }
+    flags = {"sample_count": "sample-count", "sample_size": "sample-size", "threads": "threads",
+             "min_time_ns": "min-time", "max_time_ns": "max-time", "skip_ext_time": "skip-ext-time"}
+    runs = []
+    n = 160 if tier == "quick" else 1600
+    for k in range(n):
+        field = rnd.choice(list(values))
+        def pick():
+            return rnd.choice([None] + values[field] + values[field])
+        levels = {"runner": pick(), "bench": pick(), "inner": pick(), "outer": pick()}
+        def as_opts(v):
+            if v is None:
+                return {}
+            if field.startswith("c"):
+                return {"counters": [[int(field[1]), v]]}
+            return {field: v}
+        base = {"sample_count": 2, "sample_size": 1}
+        bench_opts = dict(as_opts(levels["bench"]))
+        outer_opts = dict(base) if field not in base else {k2: v for k2, v in base.items() if k2 != field}
+        outer_opts.update(as_opts(levels["outer"]))
+        if field in base and levels["outer"] is None and levels["inner"] is None and levels["bench"] is None and levels["runner"] is None:
+            outer_opts[field] = base[field]
+        prog = {"id": f"c15m{k}", "crate": "prog", "clock": {"start": 1000, "read_step": 0, "precision": 1},
+                "benches": [
+                    {"mods": ["prog", "outer", "inner"], "raw": "target", "name": "target", "file": "src/a.rs", "line": 30,
+                     "col": 1, "kind": "plain", "opts": bench_opts, "has_opts": bool(bench_opts) or rnd.random() < 0.5, "cost": 500},
+                    {"mods": ["prog", "outer"], "raw": "plain", "name": "plain", "file": "src/a.rs", "line": 40,
+                     "col": 1, "kind": "plain", "opts": {}, "has_opts": False, "cost": 300}],
+                "groups": [
+                    {"mods": ["prog"], "raw": "outer", "name": "outer", "file": "src/a.rs", "line": 1, "col": 1,
+                     "opts": outer_opts, "has_opts": True},
+                    {"mods": ["prog", "outer"], "raw": "inner", "name": "inner", "file": "src/a.rs", "line": 10, "col": 1,
+                     "opts": as_opts(levels["inner"]), "has_opts": True}],
+                "ginst": [], "push": [["b", 0], ["g", 1], ["b", 1], ["g", 0]], "builder": [], "entry": "main"}
+        rnd.shuffle(prog["push"])
+        action = rnd.choice(["bench", "bench", "test"])
+        cfg = {"action": action, "sort": "kind", "reverse": False, "run_ignored": "no", "filters": [],
+               "argv": ["--bench"] if action == "bench" else ["--test"], "env": {}, "builder": [], "entry": "main",
+               "src_after": {}, "src_cli": {}, "src_env": {}, "src_before": {}}
+        cfg["argv"] += ["--timer", "tsc"]
+        v = levels["runner"]
+        if v is not None:
+            how = rnd.choice(["cli", "cli", "env", "env", "before", "after"])
+            ro = as_opts(v)
+            if field.startswith("c"):
+                name = ["bytes", "chars", "cycles", "items"][int(field[1])]
+                if how == "cli":
+                    cfg["argv"] += [f"--{name}-count", str(v)]
+                elif how == "env":
+                    cfg["env"][f"DIVAN_{name.upper()}_COUNT"] = str(v)
+                else:
+                    how = "after"
+                    cfg["builder"].append([f"{name}_count", v, "after"])
+            else:
+                if field in ("min_time_ns", "max_time_ns"):
+                    text = f"{v / 1e9:.9f}"
+                elif field == "threads":
+                    text = ",".join(str(x) for x in v)
+                elif field == "skip_ext_time":
+                    text = "true" if v else "false"
+                else:
+                    text = str(v)
+                if how == "cli":
+                    if field == "skip_ext_time" and rnd.random() < 0.5:
+                        cfg["argv"] += [f"--skip-ext-time={text}"] if not (v and rnd.random() < 0.5) else ["--skip-ext-time"]
+                    else:
+                        cfg["argv"] += [f"--{flags[field]}", text]
+                elif how == "env":
+                    cfg["env"]["DIVAN_" + flags[field].upper().replace("-", "_")] = text
+                else:
+                    cfg["builder"].append([field, v, how])
+            cfg[{"cli": "src_cli", "env": "src_env", "before": "src_before", "after": "src_after"}[how]] = ro
+        runs.append((prog, cfg, f"C15-m{k}"))
+    return runs
+
+
 def shape_runs(tier, seed):
     """spec -> impl for the painter: every forest of Painter.tla's exhaustive
     instance (depth <= 3, fan-out <= 2; depth <= 2, fan-out <= 3) becomes a
@@ -138,7 +223,7 @@ def validate_runs(res, prop, path, label, by_name, is_known=None, max_rounds=40)
             raise V.ToolError("RunnerTrace rejected a record: " + r["raw_tail"][-600:])
         idx = r["last_l"] - 2
         rules = [x for x in V.bad_rules(r["out"]) if x.startswith(prop + ":") or x.startswith("ALL:")
-                 or (prop == "C12" and x[:4] in ("C13:", "C20:"))]
+                 or (prop == "C12" and x[:4] in ("C13:", "C20:", "C15:"))]
         obj = make_replay(lines, idx, idx + 1, idx + 1, r)
         obj["rules"] = rules
         known = is_known(obj) if is_known else None
@@ -245,6 +330,13 @@ def run(prop, tier, seed):
         p3, recs3 = execute(sr, f"{prop}.shapes")
         res.extra["painter_shapes_replayed"] = len(sr)
         validate_runs(res, prop, p3, "spec->impl:painter-shapes", by_name)
+
+    if prop == "C15":
+        mr = c15_matrix_runs(tier, seed)
+        by_name.update({name: (prog, cfg) for prog, cfg, name in mr})
+        p4, recs4 = execute(mr, f"{prop}.matrix")
+        res.extra["option_matrix_runs"] = len(mr)
+        validate_runs(res, prop, p4, "impl->spec:option-matrix", by_name)
 
     if prop == "C14" and not res.violations:
         rnd = random.Random(seed + 77)
